@@ -1,7 +1,7 @@
 (* C14Theorems.v — the property theorems of C14 and nothing else.  Each is closed by
    `exact <lemma>` and followed by Print Assumptions (audited by ./check on every run). *)
 From V.lib Require Import Base.
-From V.c14 Require Import C14Spec C14Model C14WordProofs C14ScanProofs.
+From V.c14 Require Import C14Spec C14Model C14WordProofs C14ScanProofs C14ConvProofs.
 
 (* the word bit-trick of hasZeroByte is exactly "some byte of the word is zero", for every 8-byte
    word, whichever byte order the load uses *)
@@ -39,3 +39,42 @@ Example C14_scanner_ex :
   bytes_ok l = true /\ get_start_code_positions l = Ok ([(3, 9); (4, 24)]%Z, 3%Z) /\
   naive_scan l = [(3, 9); (4, 24)]%Z.
 Proof. vm_compute. auto. Qed.
+
+(* on every stream built from well-formed units (non-empty, last byte non-zero, no 00 00 01 inside) with
+   ANY mix of 3- and 4-byte start codes, the scanner reports exactly the generating start codes *)
+Theorem C14_scan_stream : forall us : list (bool * list N),
+  wf_units us = true ->
+  get_start_code_positions (stream us) = Ok (expected_scs 0 us, min_sc_len (expected_scs 0 us)).
+Proof. exact scan_stream. Qed.
+Print Assumptions C14_scan_stream.
+
+(* ConvertByteStreamToNaluSample yields exactly the units behind 4-byte big-endian length fields,
+   in the in-place branch (all start codes 4 bytes) and in the copying branch (any mix) *)
+Theorem C14_to_sample : forall us : list (bool * list N),
+  wf_units us = true -> units_fit us = true ->
+  to_nalu_sample (stream us) = Ok (sample (map snd us)).
+Proof. exact to_sample_spec. Qed.
+Print Assumptions C14_to_sample.
+
+(* ConvertSampleToByteStream yields the same units behind 4-byte start codes (units may even be empty) *)
+Theorem C14_to_stream : forall ns : list (list N),
+  forallb fits32 ns = true -> to_byte_stream (sample ns) = Ok (stream4 ns).
+Proof. exact to_stream_spec. Qed.
+Print Assumptions C14_to_stream.
+
+Theorem C14_roundtrip : forall us : list (bool * list N),
+  wf_units us = true -> units_fit us = true ->
+  (do s <- to_nalu_sample (stream us); to_byte_stream s) = Ok (stream4 (map snd us)).
+Proof. exact roundtrip_spec. Qed.
+Print Assumptions C14_roundtrip.
+
+(* hypotheses are satisfiable: a mixed 3/4-byte stream whose second start code straddles a word boundary,
+   and an all-4-byte stream (in-place branch) *)
+Example C14_conv_ex :
+  let us := [(false, [103;66;0;3;1]); (true, [104;206;0;0;3;2;128]); (false, [101])]%N in
+  let us4 := [(true, [103;66]); (true, [101;136;132;0;255])]%N in
+  wf_units us = true /\ units_fit us = true /\ wf_units us4 = true /\
+  to_nalu_sample (stream us) = Ok (sample (map snd us)) /\
+  to_nalu_sample (stream us4) = Ok (sample (map snd us4)) /\
+  min_sc_len (expected_scs 0 us) = 3%Z /\ min_sc_len (expected_scs 0 us4) = 4%Z.
+Proof. vm_compute. repeat split; reflexivity. Qed.
